@@ -404,6 +404,921 @@ def run_uart_rx(case):
     return ok(nt=abs(eps) >= 0.015 or "uart-rx:gap0" in cls, cls=cls, cycles=cyc)
 
 
+# ===================================================================================== SPIMaster
+
+class _Prog:
+    """Sequential CSR program executed by an agent: items
+       ["w", reg, value] bus write | ["gap", n] | ["wait"] until `done` is observed (bounded) | ["set", key, value] back-door
+       write to a bench-side signal (partner stimulus).  One item per step at most (gap n = n idle steps)."""
+
+    def __init__(self, top, items, done_sig, extra, wait_limit):
+        self.top, self.items, self.done_sig, self.extra = top, list(items), done_sig, extra
+        self.pc = 0
+        self.gap = 0
+        self.strobe = False
+        self.waited = 0
+        self.wait_limit = wait_limit
+        self.finished_at = None
+        self.timeouts = 0
+
+    def step(self, t, done):
+        bus = self.top.bus
+        out = []
+        self._we0 = None
+        if self.strobe:
+            self._we0 = bus.we.eq(0)
+            out.append(self._we0)
+            self.strobe = False
+        while self.pc < len(self.items):
+            it = self.items[self.pc]
+            k = it[0]
+            if k == "gap":
+                if self.gap < it[1]:
+                    self.gap += 1
+                    return out
+                self.gap = 0
+                self.pc += 1
+                continue
+            if k == "wait":
+                if not done and self.waited < (it[1] if len(it) > 1 else self.wait_limit):
+                    self.waited += 1
+                    return out
+                if not done:
+                    self.timeouts += 1
+                self.waited = 0
+                self.pc += 1
+                continue
+            if k == "set":
+                out.append(self.extra[it[1]].eq(it[2]))
+                self.pc += 1
+                continue
+            if k == "w":
+                out = [x for x in out if x is not self._we0]
+                out += [bus.adr.eq(self.top.addr[it[1]][0]), bus.dat_w.eq(it[2]), bus.we.eq(1)]
+                self.strobe = True
+                self.pc += 1
+                return out
+            raise ValueError(it)
+        if self.finished_at is None:
+            self.finished_at = t
+        return out
+
+
+def st_spim(tier, shrink_div=False):
+    @st.composite
+    def case(draw):
+        dw = draw(st.sampled_from([8, 16, 24, 32, 32, 12, 9]))
+        mode = draw(st.sampled_from(["raw", "aligned"]))
+        ncs = draw(st.sampled_from([1, 1, 2, 3]))
+        div0 = draw(st.sampled_from([2, 3, 4, 5, 8]))
+        psel = draw(st.integers(0, ncs - 1))
+        nx = draw(st.integers(1, 4))
+        div = div0
+        xfers = []
+        budget = 900 if tier == "quick" else 4000
+        for i in range(nx):
+            x = {}
+            if draw(st.integers(0, 3)) == 0:
+                cand = [2, 3, 4, 5, 6, 7, 8, 11, 16, 33, 64]
+                if not shrink_div:
+                    cand = [d for d in cand if d >= div]      # see key c19:spim:divider-shrink (own sub-check)
+                else:
+                    cand = [d for d in cand if d != div]
+                if cand:
+                    div = draw(st.sampled_from(cand))
+                    x["div"] = div
+            maxlen = max(1, min(dw, budget // (div * nx) - 2))
+            x["len"] = draw(st.one_of(st.integers(1, maxlen), st.sampled_from([1, maxlen, min(dw, 8)])))
+            x["len"] = min(x["len"], maxlen)
+            x["mosi"] = draw(st.one_of(st.integers(0, (1 << dw) - 1), st.sampled_from([0, (1 << dw) - 1, 1 << (dw - 1), 1,
+                                                                                     0xaaaaaaaa & ((1 << dw) - 1)])))
+            x["resp"] = draw(st.integers(0, (1 << dw) - 1))
+            x["gap"] = draw(st.one_of(st.just(0), st.integers(0, 2 * div + 1)))
+            if draw(st.integers(0, 4)) == 0:
+                x["cs"] = [draw(st.integers(0, (1 << ncs) - 1)) if ncs > 1 else draw(st.sampled_from([1, 1, 0])), 0]
+            if draw(st.integers(0, 5)) == 0:
+                x["loop"] = draw(st.integers(0, 1))
+            if draw(st.integers(0, 2)) == 0:
+                # a write landing while the transfer runs: second start (same length) or new mosi word
+                # (offsets near the end make the second start land in the last busy / first idle cycles: back-to-back)
+                x["over"] = [draw(st.one_of(st.integers(0, (x["len"] + 2) * div + 2),
+                                            st.integers(max(0, x["len"] * div - 2), (x["len"] + 2) * div + 2))),
+                             draw(st.sampled_from(["start", "start", "mosi"])), draw(st.integers(0, (1 << dw) - 1))]
+            x["poll_gap"] = draw(st.sampled_from([0, 0, 1, 2, 5]))
+            xfers.append(x)
+        return {"dw": dw, "mode": mode, "ncs": ncs, "div0": div0, "psel": psel, "xfers": xfers,
+                "manual": draw(st.integers(0, 7)) == 0, "garble": draw(st.booleans())}
+    return case()
+
+
+def run_spim(case):
+    from migen import Record
+    from litex.soc.cores.spi.spi_master import SPIMaster
+    dw, mode, ncs = case["dw"], case["mode"], case["ncs"]
+    pads = Record([("clk", 1), ("cs_n", ncs), ("mosi", 1), ("miso", 1)])
+    core = SPIMaster(pads, data_width=dw, sys_clk_freq=case["div0"] * 1000000, spi_clk_freq=1000000, with_csr=True, mode=mode)
+    core.add_clk_divider()
+    partner = periph.spi_slave_partner(pads, dw)
+    top = periph.csr_top(core, others=[partner])
+    items = [["set", "psel", case["psel"]], ["set", "garble", int(case.get("garble", False))]]
+    if case["manual"]:
+        items.append(["w", "cs", 1 | (1 << 16)])
+    div = case["div0"]
+    limit = 40
+    for x in case["xfers"]:
+        if "div" in x:
+            div = x["div"]
+            items.append(["w", "clk_divider", div])
+        if "cs" in x and not case["manual"]:
+            items.append(["w", "cs", x["cs"][0] | (x["cs"][1] << 16)])
+        if "loop" in x:
+            items.append(["w", "loopback", x["loop"]])
+        items += [["set", "resp", x["resp"]], ["w", "mosi", x["mosi"]], ["gap", x["gap"]],
+                  ["w", "control", 1 | (x["len"] << 8)]]
+        bound = (x["len"] + 2) * div + 8
+        if "over" in x:
+            at, what, v = x["over"]
+            items.append(["gap", at])
+            items.append(["w", "control", 1 | (x["len"] << 8)] if what == "start" else ["w", "mosi", v])
+            bound *= 2
+        items += [["gap", 2], ["wait", 2 * bound + 40], ["gap", x["poll_gap"]]]
+        limit += 2 * bound + 40 + x["gap"] + x["poll_gap"] + 12
+    if case["manual"]:
+        items.append(["w", "cs", 1])
+    limit += 2 * div + 8
+
+    sigs = [pads.clk, pads.cs_n, pads.mosi, pads.miso, core.start, core.done, core.irq, core.miso, core.length, core.mosi,
+            core.cs, core.cs_mode, core.loopback, core.clk_divider]
+
+    class Agent:
+        def __init__(self):
+            self.trace = []
+            self.prog = _Prog(top, items, core.done, {"resp": partner.resp, "psel": partner.sel, "garble": partner.garble}, wait_limit=3000)
+
+        def signals(self):
+            return sigs
+
+        def step(self, t, vals):
+            self.trace.append(tuple(vals))
+            return self.prog.step(t, vals[5])
+
+    ag = Agent()
+    tail = 2 * 64 + 8
+    state = {"stop": None}
+
+    def stop(t):
+        f = ag.prog.finished_at
+        return f is not None and t > f + 2 * div + 6
+
+    cyc = bench.run(top, [ag], limit, stop=stop)
+    v, info = judge_spim(ag.trace, dw, mode, ncs, case["psel"])
+    cls = ["spim:dw%d" % dw, "spim:" + mode, "spim:ncs%d" % ncs] + sorted(info["cls"])
+    if case.get("garble"):
+        cls.append("spim:miso-valid-only-around-rising-edge")
+    what = "SPIMaster(data_width=%d, mode=%s, cs lines=%d, reset divider=%d)" % (dw, mode, ncs, case["div0"])
+    if v:
+        return bad(v[0], what + ": " + v[1], key="c19:spim:" + v[2], cls=cls, cycles=cyc)
+    if (ag.prog.finished_at is None or ag.prog.timeouts) and "spim:divider-lowered-at-run-time" in cls:
+        return bad("spim-divider-stall", what + ": program did not finish within %d cycles after the divider was lowered; "
+                   "transfers seen: %r" % (cyc, info["xfers"]), key="c19:spim:divider-shrink-stall", cls=cls, cycles=cyc)
+    if ag.prog.finished_at is None or ag.prog.timeouts:
+        return bad("spim-stuck", what + ": program did not finish within %d cycles (done never returned); transfers seen: %r" %
+                   (cyc, info["xfers"]), key="c19:spim:stuck", cls=cls, cycles=cyc)
+    nt = info["n"] >= 2 and info["midphase"] >= 1
+    return ok(nt=nt, cls=cls, cycles=cyc)
+
+
+def judge_spim(tr, dw, mode, ncs, psel):
+    """tr rows: clk, cs_n, mosi, miso, start, done, irq, miso_reg, length, mosi_reg, cs, cs_mode, loopback, divider.
+    Returns ((clause, detail, key) | None, info)."""
+    CLK, CSN, MOSI, MISO, START, DONE, IRQ, MISOREG, LEN, MOSIREG, CS, CSMODE, LOOP, DIV = range(14)
+    n = len(tr)
+    info = {"cls": set(), "n": 0, "midphase": 0, "xfers": []}
+    allcs = (1 << ncs) - 1
+    idle = True
+    xf = None
+    xfers = []
+    for c in range(n):
+        r = tr[c]
+        if r[DONE] != int(idle and not r[START]):
+            return ("spim-done", "cycle %d: done=%d while the monitor has the core %s (start=%d)" % (
+                c, r[DONE], "idle" if idle else "busy", r[START]), "done"), info
+        if idle:
+            if r[START]:
+                xf = {"a": c, "len": r[LEN], "mosi": r[MOSIREG], "cs": r[CS], "csmode": r[CSMODE], "loop": r[LOOP], "div": r[DIV],
+                      "e": None, "stable": True}
+                xfers.append(xf)
+                idle = False
+        else:
+            if r[START]:
+                info["cls"].add("spim:overlapping-start")
+            if (r[CS], r[CSMODE], r[LOOP], r[DIV], r[LEN]) != (xf["cs"], xf["csmode"], xf["loop"], xf["div"], xf["len"]):
+                xf["stable"] = False
+            if r[MOSIREG] != xf["mosi"]:
+                info["cls"].add("spim:mosi-rewritten-during-transfer")
+            if r[IRQ]:
+                xf["e"] = c
+                idle = True
+    info["n"] = len(xfers)
+    info["xfers"] = [(x["a"], x["e"], x["len"], x["div"]) for x in xfers]
+    # clock edges
+    rises = [c for c in range(1, n) if tr[c][CLK] and not tr[c - 1][CLK]]
+    falls = [c for c in range(1, n) if not tr[c][CLK] and tr[c - 1][CLK]]
+    owned = set()
+    prev_e = 0
+    for i, x in enumerate(xfers):
+        a, e = x["a"], x["e"]
+        L, div = x["len"], x["div"]
+        tag = "transfer %d (start accepted in cycle %d, length %d, divider %d, mosi %#x)" % (i, a, L, div, x["mosi"])
+        if not (1 <= L <= dw) or div < 2:
+            return ("spim-harness", tag + ": outside the documented domain", "harness"), info
+        shrunk = [c for c in range(1, a + 1) if tr[c][DIV] < tr[c - 1][DIV]]
+        if shrunk:
+            info["cls"].add("spim:divider-lowered-at-run-time")
+        if e is None or e - a > (L + 2) * div + 8:
+            took = "not finished %d cycles later" % (n - a) if e is None else "took %d cycles" % (e - a)
+            if e is None and n - a <= (L + 2) * div + 8:
+                break
+            if shrunk:
+                return ("spim-divider-stall", tag + ": %s (bound (length+2)*divider+8 = %d); the divider register was lowered from "
+                        "%d to %d in cycle %d" % (took, (L + 2) * div + 8, tr[shrunk[-1] - 1][DIV], tr[shrunk[-1]][DIV], shrunk[-1]),
+                        "divider-shrink-stall"), info
+            return ("spim-stuck", tag + ": %s (bound (length+2)*divider+8 = %d)" % (took, (L + 2) * div + 8), "stuck"), info
+        # was the start issued while the divider was mid-phase?  (phase = distance to the previous falling edge grid)
+        rs = [c for c in rises if a < c <= e]
+        if rs:
+            # first falling edge of the internal divider after the start: df in 1..div, df == div <=> start coincided with
+            # a divider wrap; anything else = command issued while the divider is mid-phase
+            df = rs[0] - a - 1 - div // 2
+            if df != div:
+                info["midphase"] += 1
+                info["cls"].add("spim:start-mid-phase")
+            else:
+                info["cls"].add("spim:start-at-divider-wrap")
+        if i > 0 and a - prev_e <= 3:
+            info["cls"].add("spim:back-to-back(start %d after end)" % (a - prev_e))
+        fs = [c for c in falls if a < c <= e + 1]
+        owned.update(rs)
+        if len(rs) != L:
+            return ("spim-clocks", tag + ": %d clock pulses (rising edges at %r)" % (len(rs), rs), "clocks"), info
+        if len(fs) != L or any(f <= r_ for r_, f in zip(rs, fs)):
+            return ("spim-clocks", tag + ": rising edges %r, falling edges %r" % (rs, fs), "clocks"), info
+        if not x["stable"]:
+            info["cls"].add("spim:config-changed-during-transfer")
+            prev_e = e
+            continue
+        for r0, r1 in zip(rs, rs[1:]):
+            if r1 - r0 != div:
+                return ("spim-period", tag + ": rising edges %d and %d are %d cycles apart" % (r0, r1, r1 - r0), "period"), info
+        for r_, f in zip(rs, fs):
+            if f - r_ < div // 2 or (div - (f - r_)) < div // 2:
+                return ("spim-duty", tag + ": clock high from %d to %d with divider %d" % (r_, f, div), "duty"), info
+        # MOSI: MSB first, valid around the rising edge and held until the falling edge
+        sent = []
+        for r_, f in zip(rs, fs):
+            vals = {tr[c][MOSI] for c in range(r_ - 1, f)}
+            if len(vals) != 1:
+                return ("spim-mosi-stable", tag + ": MOSI changes between cycle %d and %d (clock high)" % (r_ - 1, f), "mosi-stable"), info
+            sent.append(tr[r_][MOSI])
+        top_bit = (dw - 1) if mode == "raw" else (L - 1)
+        exp = [(x["mosi"] >> (top_bit - k)) & 1 if top_bit - k >= 0 else 0 for k in range(L)]
+        if sent != exp:
+            return ("spim-mosi", tag + ": MOSI bits %r, MSB-first (%s) gives %r" % (sent, mode, exp), "mosi"), info
+        # MISO capture / loopback
+        for r_ in rs:
+            if tr[r_ - 1][MISO] != tr[r_][MISO]:
+                return ("spim-harness", tag + ": partner changed MISO at a rising edge", "harness"), info
+        src = sent if x["loop"] else [tr[r_ - 1][MISO] for r_ in rs]
+        word = 0
+        for b in src:
+            word = (word << 1) | b
+        if not x["loop"] and 0 in src and 1 in src:
+            info["cls"].add("spim:miso-mixed-bits")
+        if e + 1 < n:
+            got = tr[e + 1][MISOREG] & ((1 << L) - 1)
+            if got != word:
+                return ("spim-miso", tag + ": miso[%d:0] reads %#x after the transfer, the %s carried %#x" % (
+                    L - 1, got, "MOSI pin (loopback)" if x["loop"] else "MISO pin at the rising edges", word), "miso"), info
+        if x["loop"]:
+            info["cls"].add("spim:loopback")
+        # chip select framing
+        if x["csmode"] == 0:
+            mask = x["cs"] & allcs
+            # mode-0 framing: selected from half an SPI clock before the first rising edge until half a clock after the
+            # last falling edge (fs[-1] is the first cycle in which the clock is low again)
+            for c in range(rs[0] - div // 2, min(n, fs[-1] + div // 2)):
+                if (~tr[c][CSN]) & allcs != mask:
+                    return ("spim-cs", tag + ": cs_n=%s in cycle %d, selected lines %s (clock burst %d..%d, half a clock of "
+                            "setup/hold expected)" % (bin(tr[c][CSN]), c, bin(mask), rs[0], fs[-1]), "cs"), info
+            lo = max(1, prev_e + 1)
+            if mask and not any((tr[c][CSN] & allcs) == allcs for c in range(lo, rs[0])):
+                return ("spim-cs", tag + ": chip select never released between cycle %d and the first clock at %d" % (lo, rs[0]), "cs"), info
+            rel = [c for c in range(fs[-1], min(n, e + div + 4)) if (tr[c][CSN] & allcs) == allcs]
+            if not rel and e + div + 4 <= n:
+                return ("spim-cs", tag + ": chip select not released within divider+4 cycles after the end (%d)" % e, "cs"), info
+            if mask == 0:
+                info["cls"].add("spim:no-cs-selected")
+            if mask & (mask - 1):
+                info["cls"].add("spim:several-cs")
+        else:
+            info["cls"].add("spim:manual-cs")
+            for c in range(rs[0] - 1, fs[-1] + 1):
+                if (~tr[c][CSN]) & allcs != x["cs"] & allcs:
+                    return ("spim-cs", tag + ": manual mode, cs_n=%s in cycle %d, sel=%s" % (bin(tr[c][CSN]), c, bin(x["cs"])), "cs"), info
+        prev_e = e
+    stray = [c for c in rises if c not in owned and not any(x["e"] is None or not x["stable"] for x in xfers)]
+    if stray:
+        return ("spim-clock-idle", "clock pulses outside any transfer at cycles %r (transfers %r)" % (stray[:6], info["xfers"]), "clock-idle"), info
+    return None, info
+
+
+# ===================================================================================== WaitTimer / timeline / PWM / Watchdog
+
+def st_waittimer(tier):
+    @st.composite
+    def case(draw):
+        t = draw(st.one_of(st.integers(0, 12), st.integers(0, 40), st.sampled_from([0, 1, 2, 3, 12.7, 4.999, 31, 32, 33])))
+        return {"t": t, "wait": draw(bench.st_schedule()), "n": draw(st.integers(20, 160)),
+                "hold": draw(st.integers(0, 60))}
+    return case()
+
+
+def run_waittimer(case):
+    from litex.gen.genlib.misc import WaitTimer
+    t = int(case["t"])
+    dut = WaitTimer(case["t"])
+    sched = bench.Schedule(case["wait"])
+    n = case["n"] + t + 4
+    hold_from = case["n"] - case["hold"]          # from here on wait stays high: the timer must finish and stay done
+
+    def w(c):                                     # value of `wait` during cycle c
+        if c == 0:
+            return 0
+        return 1 if c - 1 >= hold_from else sched.bit(c - 1)
+
+    drv = bench.Driver(lambda c: {dut.wait: w(c + 1)})
+    probe = bench.Probe([dut.done])
+    cyc = bench.run(dut, [drv, probe], n)
+    rises = restarts = 0
+    run = 0                                       # number of consecutive cycles with wait=1 ending at c-1
+    for c, (done,) in enumerate(probe.trace):
+        exp = int(run >= t)                       # done <=> wait was high during (at least) the last t cycles
+        if done != exp:
+            return bad("waittimer-done", "WaitTimer(%r): cycle %d done=%d; wait has been high for the last %d cycles (t=%d)" % (
+                case["t"], c, done, run, t), key="c19:waittimer:done", cycles=cyc)
+        if w(c):
+            run += 1
+            if run == t:
+                rises += 1
+        else:
+            if 0 < run < t:
+                restarts += 1
+            run = 0
+    if t > 0 and not probe.trace[-1][0]:
+        return bad("waittimer-finish", "WaitTimer(%r): not done at the end although wait was held for %d cycles" % (case["t"], n - hold_from),
+                   key="c19:waittimer:done", cycles=cyc)
+    return ok(nt=bool(rises and restarts), cls=["waittimer:t=0" if t == 0 else "waittimer:t>0"] +
+              (["waittimer:interrupted-count"] if restarts else []), cycles=cyc)
+
+
+def st_timeline(tier):
+    @st.composite
+    def case(draw):
+        times = sorted(draw(st.sets(st.integers(0, 20), min_size=1, max_size=5)) | {draw(st.integers(1, 20))})
+        return {"times": times, "trig": draw(bench.st_schedule()), "n": draw(st.integers(30, 200))}
+    return case()
+
+
+def run_timeline(case):
+    from migen import Module, Signal
+    from litex.gen.genlib.misc import timeline
+    times = case["times"]
+
+    class Top(Module):
+        def __init__(self):
+            self.trigger = Signal()
+            self.marks = [Signal(name="mark%d" % i) for i in range(len(times))]
+            self.sync += timeline(self.trigger, [(t, [m.eq(~m)]) for t, m in zip(times, self.marks)])
+
+    if max(times) < 1:
+        return skip("timeline needs an event later than cycle 0 (Signal(max=1) is rejected by Migen)")
+    dut = Top()
+    sched = bench.Schedule(case["trig"])
+    n = case["n"]
+    quiet_from = n - max(times) - 6               # no more triggers: the sequence must run out and stop
+
+    def trig(c):
+        return 0 if (c == 0 or c - 1 >= quiet_from) else sched.bit(c - 1)
+
+    drv = bench.Driver(lambda c: {dut.trigger: trig(c + 1)})
+    probe = bench.Probe(dut.marks)
+    cyc = bench.run(dut, [drv, probe], n)
+    last = max(times)
+    busy_until = -1                                # last cycle in which the sequencer is busy with the accepted trigger
+    toggles = {}                                   # cycle -> set of marks that must differ from the previous cycle
+    accepted = ignored = 0
+    for c in range(n):
+        if trig(c):
+            if c > busy_until:
+                accepted += 1
+                busy_until = c + max(last, 1)
+                for i, t in enumerate(times):
+                    toggles.setdefault(c + t + 1, set()).add(i)
+            else:
+                ignored += 1
+    prev = tuple(0 for _ in times)
+    for c, row in enumerate(probe.trace):
+        want = tuple(p ^ (1 if i in toggles.get(c, ()) else 0) for i, p in enumerate(prev))
+        if row != want:
+            return bad("timeline-events", "timeline(events at %r): cycle %d marks %r, expected %r (%d triggers accepted, busy until %d)" % (
+                times, c, row, want, accepted, busy_until), key="c19:timeline:events", cycles=cyc)
+        prev = row
+    return ok(nt=accepted >= 2 and ignored >= 1, cls=["timeline:last=%s" % ("2^k-1" if (last & (last + 1)) == 0 else "other")] +
+              (["timeline:trigger-while-busy"] if ignored else []), cycles=cyc)
+
+
+def st_pwm(tier):
+    @st.composite
+    def case(draw):
+        segs = []
+        for _ in range(draw(st.integers(1, 4))):
+            P = draw(st.one_of(st.integers(1, 12), st.integers(1, 40)))
+            W = draw(st.one_of(st.integers(0, P), st.integers(0, P + 3), st.sampled_from([0, P, 1, max(0, P - 1)])))
+            segs.append({"period": P, "width": W, "enable": draw(st.sampled_from([1, 1, 1, 0])),
+                         "reset": draw(st.sampled_from([0, 0, 0, 1])), "extra": draw(st.integers(0, 9)),
+                         "order": draw(st.permutations(["period", "width", "enable"]))})
+        return {"segs": segs, "csr": draw(st.booleans())}
+    return case()
+
+
+def run_pwm(case):
+    from litex.soc.cores.pwm import PWM
+    core = PWM(with_csr=True)
+    top = periph.csr_top(core)
+    writes = {}
+    sets = {}
+    t = 2
+    marks = []                                    # (cycle from which the segment's settings are all in force, end, seg)
+    for sg in case["segs"]:
+        for reg in sg["order"]:
+            writes[t] = (reg, sg[reg])
+            t += 1
+        sets[t - 1] = sg["reset"]
+        start = t + 1
+        t += 3 * sg["period"] + 6 + sg["extra"]
+        marks.append((start, t, sg))
+    n = t + 2
+
+    class Rst:
+        def signals(self):
+            return []
+
+        def step(self, c, vals):
+            if c in sets:
+                return [core.reset.eq(sets[c])]
+
+    probe = bench.Probe([core.pwm])
+    cyc = bench.run(top, [periph.BusProgram(top, writes), Rst(), probe], n)
+    pwm = [r[0] for r in probe.trace]
+    cls = set()
+    for start, end, sg in marks:
+        P, W = sg["period"], sg["width"]
+        what = "PWM(period=%d, width=%d, enable=%d, reset=%d) settled from cycle %d" % (P, W, sg["enable"], sg["reset"], start)
+        lo = start + P + 3                          # one full period after the last register change
+        win = pwm[lo:end]
+        if not sg["enable"]:
+            cls.add("pwm:disabled")
+            if any(win):
+                return bad("pwm-disabled", what + ": output high while disabled: %r" % win, key="c19:pwm:disabled", cycles=cyc)
+            continue
+        if sg["reset"]:
+            cls.add("pwm:reset-held")
+            # counter held at 0: output is high iff width > 0
+            if any(v != int(W > 0) for v in win):
+                return bad("pwm-reset", what + ": output %r while the counter is held in reset" % win, key="c19:pwm:reset", cycles=cyc)
+            continue
+        high = min(W, P)
+        for i in range(len(win) - P):
+            if win[i] != win[i + P]:
+                return bad("pwm-period", what + ": output not periodic with the programmed period: %r" % win, key="c19:pwm:period", cycles=cyc)
+        if len(win) >= P:
+            per = win[:P]
+            rises = sum(1 for i in range(P) if per[i] and not per[i - 1])
+            if sum(per) != high or rises != (1 if 0 < high < P else 0):
+                return bad("pwm-width", what + ": one period of the output is %r, expected %d high and %d low cycles" % (per, high, P - high),
+                           key="c19:pwm:width", cycles=cyc)
+        cls.add("pwm:width=0" if W == 0 else ("pwm:width>=period" if W >= P else "pwm:0<width<period"))
+    return ok(nt=len(case["segs"]) >= 2 and "pwm:0<width<period" in cls, cls=sorted(cls), cycles=cyc)
+
+
+def st_watchdog(tier, probe=None):
+    @st.composite
+    def case(draw):
+        width = draw(st.sampled_from([32, 32, 8, 16]))
+        top = (1 << width) - 1
+        val = st.one_of(st.integers(0, 10), st.integers(0, 10), st.integers(0, 30), st.sampled_from([top, 1]))
+        gap = st.one_of(st.integers(0, 3), st.integers(0, 3), st.integers(0, 25))
+        ops = []
+        ctrl = {"enable": 0, "reset": 0, "pause": 0}
+        for _ in range(draw(st.integers(4, 24))):
+            k = draw(st.sampled_from(["cycles", "feed", "feed", "ctrl", "ctrl", "halt", "clr", "ien"]))
+            if k == "cycles":
+                ops.append([draw(gap), "cycles", draw(val) & top])
+            elif k in ("feed", "ctrl"):
+                if k == "ctrl":
+                    f = draw(st.sampled_from(["enable", "enable", "reset", "pause"]))
+                    ctrl[f] ^= 1
+                v = (1 if k == "feed" or draw(st.integers(0, 3)) == 0 else 0) | (ctrl["enable"] << 8) | (ctrl["reset"] << 16) | (ctrl["pause"] << 24)
+                ops.append([draw(gap), "control", v])
+            elif k == "halt":
+                ops.append([draw(gap), "halt", draw(st.integers(0, 1))])
+            elif k == "clr":
+                ops.append([draw(gap), "ev_pending", 1])
+            else:
+                ops.append([draw(gap), "ev_enable", draw(st.integers(0, 1))])
+        # epilogue: load a short time-out, enable with reset mode, let it expire: event and reset must come
+        C = draw(st.integers(0, 9))
+        delay = draw(st.integers(1, 6)) if probe != "delay0" else 0
+        ops += [[draw(gap), "halt", 0], [0, "cycles", C], [0, "control", 1 | (1 << 8) | (1 << 16)]]
+        return {"width": width, "delay": delay, "ops": ops, "tail": C + delay + 6, "probe": probe}
+    return case()
+
+
+def run_watchdog(case):
+    from migen import Signal
+    from litex.soc.cores.watchdog import Watchdog
+    width, delay = case["width"], case["delay"]
+    rst = Signal()
+    halted = Signal()
+    core = Watchdog(width=width, crg_rst=rst, reset_delay=delay, halted=halted)
+    top = periph.csr_top(core)
+    sched, tend = periph.schedule_ops(case["ops"])
+    writes = {t: (op[1], op[2]) for t, op in sched.items() if op[1] != "halt"}
+    halts = {t: op[2] for t, op in sched.items() if op[1] == "halt"}
+    n = tend + case["tail"] + 4
+
+    class Halt:
+        def signals(self):
+            return []
+
+        def step(self, c, vals):
+            if c in halts:
+                return [halted.eq(halts[c])]
+
+    probe = bench.Probe([core._remaining.status, core.ev.wdt.trigger, core.ev.wdt.pending, core.ev.irq, rst])
+    cyc = bench.run(top, [periph.BusProgram(top, writes), Halt(), probe], n)
+    eff = {}
+    for t, op in sched.items():
+        eff.setdefault(t + (1 if op[1] == "halt" else 2), []).append((op[1], op[2]))
+    cycles = ctrl = ien = 0
+    halt_in = 0
+    remaining = execute = 0
+    trig_d = pending = 0
+    wait_run = 0
+    timeouts = feeds_running = saturated = 0
+    exp = []
+    strict = case.get("probe")
+    for c in range(len(probe.trace)):
+        feed = clr = False
+        for k, v in eff.get(c, ()):
+            if k == "cycles":
+                cycles = v
+            elif k == "control":
+                ctrl = v
+                feed = bool(v & 1)                 # pulse field: only in the cycle of the write strobe
+            elif k == "halt":
+                halt_in = v
+            elif k == "ev_pending":
+                clr = bool(v & 1)
+            elif k == "ev_enable":
+                ien = v & 1
+        enable = ((ctrl >> 8) & 1) & (1 - (halt_in & ((ctrl >> 24) & 1)))
+        rmode = (ctrl >> 16) & 1
+        trig = enable & execute
+        wait = enable & execute & rmode
+        rst_exp = int(wait_run >= delay)           # WaitTimer(reset_delay): wait high during the last `delay` cycles
+        if strict == "delay0":
+            # documented: "Reset SoC when watchdog times out" - no reset request unless the time-out condition holds
+            if probe.trace[c][4] and not wait:
+                return bad("watchdog-reset-without-timeout",
+                           "Watchdog(reset_delay=%d, crg_rst=Signal()): cycle %d crg_rst=1 while enable=%d, timed out=%d, reset mode=%d" % (
+                               delay, c, enable, execute, rmode), key="c19:watchdog:reset-delay-0", cycles=cyc)
+        exp.append((remaining, trig, pending, pending & ien, rst_exp))
+        wait_run = wait_run + 1 if wait else 0
+        npend = 0 if clr else pending
+        if trig and not trig_d:
+            npend = 1
+            timeouts += 1
+        pending, trig_d = npend, trig
+        if feed:
+            if enable and remaining not in (0, cycles):
+                feeds_running += 1
+            remaining = cycles
+        elif enable:
+            execute = int(remaining == 0)
+            if remaining != 0:
+                remaining -= 1                      # one step per enabled cycle
+            else:
+                saturated += 1                      # stays at zero, never wraps
+    cls = ["watchdog:w%d" % width, "watchdog:delay%d" % delay]
+    i = _first_diff(exp, probe.trace)
+    if i is not None:
+        names = ["remaining", "timeout-event", "pending", "irq", "crg-reset"]
+        j = _first_diff(exp[i], probe.trace[i])
+        lo = max(0, i - 3)
+        return bad("watchdog-" + names[j], "Watchdog(width=%d, reset_delay=%d): cycle %d %s is %d, expected %d; (remaining, event, pending, "
+                   "irq, crg_rst) trace[%d:%d] got %r expected %r" % (width, delay, i, names[j], probe.trace[i][j], exp[i][j], lo, i + 1,
+                                                                        probe.trace[lo:i + 1], exp[lo:i + 1]),
+                   key="c19:watchdog:" + names[j], cls=cls, cycles=cyc)
+    if not probe.trace[-1][4] and strict != "delay0":
+        return bad("watchdog-finish", "Watchdog: the final time-out with reset mode did not raise crg_rst", key="c19:watchdog:crg-reset",
+                   cls=cls, cycles=cyc)
+    if feeds_running:
+        cls.append("watchdog:fed-while-counting")
+    if saturated:
+        cls.append("watchdog:saturated-at-zero")
+    if timeouts >= 2:
+        cls.append("watchdog:several-timeouts")
+    return ok(nt=bool(feeds_running and saturated), cls=cls, cycles=cyc)
+
+
+# ===================================================================================== I2C master
+
+I2C_ACK, I2C_READ, I2C_WRITE, I2C_START, I2C_STOP, I2C_IDLE = (1 << i for i in range(8, 14))
+
+
+def st_i2c(tier, busy=False):
+    @st.composite
+    def case(draw):
+        load = draw(st.sampled_from([1, 1, 2, 2, 3, 5, 8]))
+        byte = st.one_of(st.integers(0, 255), st.sampled_from([0x00, 0xff, 0x55, 0xaa, 0x80, 0x01]))
+        lat = st.one_of(st.just(0), st.integers(0, 3), st.integers(0, 2 * load + 4))
+        cmds = []
+        if not busy and draw(st.integers(0, 3)) > 0:
+            # protocol-shaped: START (addr) (WRITE|READ)* [RESTART ...] STOP, every command after idle was read back
+            mode = "seq"
+            for _ in range(draw(st.integers(1, 2))):
+                cmds.append(["start", 0, draw(lat)])
+                nb = draw(st.integers(1, 3))
+                for i in range(nb):
+                    if i == 0 or draw(st.booleans()):
+                        cmds.append(["write", draw(byte), draw(lat), draw(st.sampled_from([1, 1, 1, 0]))])     # slave acks?
+                    else:
+                        cmds.append(["read", draw(byte), draw(lat), draw(st.integers(0, 1))])                  # master acks?
+                    if i < nb - 1 and draw(st.integers(0, 3)) == 0:
+                        cmds.append(["start", 0, draw(lat)])                                                   # repeated START
+                        cmds.append(["write", draw(byte), draw(lat), 1])
+                cmds.append(["stop", 0, draw(lat)])
+        else:
+            # arbitrary, also nonsensical, command orders: legality and progress only.  "any": each command is written after
+            # idle was read back; "busy": at arbitrary times, also while the previous one runs (own sub-check, finding
+            # c19:i2c:command-while-busy)
+            mode = "busy" if busy else "any"
+            for _ in range(draw(st.integers(2, 10))):
+                k = draw(st.sampled_from(["start", "stop", "write", "read"]))
+                cmds.append([k, draw(byte), draw(st.one_of(st.integers(0, 6), st.integers(0, 20 * (load + 1)))),
+                             draw(st.integers(0, 1))])
+        return {"load": load, "mode": mode, "cmds": cmds}
+    return case()
+
+
+def i2c_expect(cmds):
+    """(token list, slave script bits {slot: pull low}, number of slots) for a protocol-shaped command list.
+    slot = number of SCL falling edges so far."""
+    toks = []
+    script = {}
+    falls = 0
+    scl = 1
+    for i, c in enumerate(cmds):
+        k = c[0]
+        if k == "start":
+            toks.append("S")
+            scl = 1
+        elif k == "stop":
+            toks.append("P")
+            scl = 1
+        elif k == "write":
+            b, slave_ack = c[1], c[3]
+            ack_slot = falls + scl + 8
+            if slave_ack:
+                script[ack_slot] = 1
+            toks.append(("B", b, 0 if slave_ack else 1))
+            falls = ack_slot + 1
+            scl = 0
+        elif k == "read":
+            b, master_ack = c[1], c[3]
+            for j in range(8):
+                if not (b >> (7 - j)) & 1:
+                    script[falls + j] = 1
+            toks.append(("B", b, 0 if master_ack else 1))
+            falls += 9
+            scl = 0
+    return toks, script, falls + 2
+
+
+def i2c_parse(scl, sda):
+    """pin-level parser: returns (tokens, violations).  tokens: "S", "P", ("B", byte, ackbit), ("partial", nbits)."""
+    toks, viol = [], []
+    bits = []
+    took = False                 # a bit was sampled at the rising edge of the current high phase
+    for c in range(1, len(scl)):
+        ds, dd = scl[c] != scl[c - 1], sda[c] != sda[c - 1]
+        if ds and dd:
+            viol.append((c, "SCL and SDA change in the same cycle"))
+        if ds:
+            if scl[c]:
+                bits.append(sda[c])
+                took = True
+                if len(bits) == 9:
+                    b = 0
+                    for x in bits[:8]:
+                        b = (b << 1) | x
+                    toks.append(("B", b, bits[8]))
+                    bits = []
+                    took = False
+            else:
+                took = False
+        elif dd and scl[c]:
+            # START / STOP: the bit sampled at this high phase's rising edge belongs to the condition, not to data
+            if took and bits:
+                bits.pop()
+            took = False
+            if bits:
+                toks.append(("partial", len(bits)))
+                bits = []
+            toks.append("P" if sda[c] else "S")
+    if bits:
+        toks.append(("partial", len(bits)))
+    return toks, viol
+
+
+def run_i2c(case):
+    from migen import Module, Signal
+    from migen.fhdl.specials import Tristate
+    from litex.soc.cores.i2c import I2CMaster
+    load, mode, cmds = case["load"], case["mode"], case["cmds"]
+
+    class Pads:
+        def __init__(self):
+            self.scl = Signal(name="scl")
+            self.sda = Signal(name="sda")
+
+    pads = Pads()
+    dut = I2CMaster(pads)
+    dut.scl_tristate.i_mock = Signal(reset=1, name="scl_pullup")
+    dut.sda_tristate.i_mock = Signal(reset=1, name="sda_others")
+    if mode == "seq":
+        exp_toks, script, nslots = i2c_expect(cmds)
+    else:
+        exp_toks, script, nslots = None, {}, 4
+    partner = periph.i2c_slave_partner(pads.scl, dut.sda_tristate.i_mock, nslots)
+
+    class Top(Module):
+        def __init__(self):
+            self.submodules.dut = dut
+            self.submodules.partner = partner
+
+    top = Top()
+    bus = dut.bus
+    code = {"start": I2C_START, "stop": I2C_STOP, "write": I2C_WRITE, "read": I2C_READ}
+    step_bound = 20 * (load + 1) + 12
+    script_word = sum(1 << k for k in script)
+
+    class Agent:
+        def __init__(self):
+            self.trace = []
+            self.pc = -1                    # -1: configuration write
+            self.state = "issue"
+            self.wait = 0
+            self.guard = 0
+            self.issued = []                # (index, step at which the wishbone write was presented)
+            self.status = []                # status word read back once the command was seen finished (seq mode)
+            self.stuck = None
+            self.overlapped = 0
+            self.finished_at = None
+            self.waited = 0
+
+        def signals(self):
+            return [pads.scl, pads.sda, bus.ack, bus.dat_r, dut.i2c.start, dut.i2c.stop, dut.i2c.write, dut.i2c.read]
+
+        def _present(self, adr, dat):
+            return [bus.adr.eq(adr), bus.dat_w.eq(dat), bus.we.eq(1), bus.cyc.eq(1), bus.stb.eq(1), bus.sel.eq(0xf)]
+
+        def step(self, t, vals):
+            self.trace.append(tuple(vals))
+            out = []
+            if t == 0:
+                out.append(partner.script.eq(script_word))
+            ack, dat_r = vals[2], vals[3]
+            if self.state == "ack":
+                if ack:
+                    out += [bus.cyc.eq(0), bus.stb.eq(0), bus.we.eq(0), bus.adr.eq(0)]
+                    self.state = "idlewait"
+                    self.guard = 3          # status read back through dat_r is two cycles behind the write
+                    self.waited = 0
+                return out
+            if self.state == "idlewait":
+                if self.guard:
+                    self.guard -= 1
+                    return out
+                if mode != "busy" or self.pc < 0 or self.pc >= len(cmds) - 1:
+                    if not dat_r & I2C_IDLE:
+                        self.waited += 1
+                        if self.waited > step_bound:
+                            self.stuck = (self.pc, t)
+                            self.state = "done"
+                            self.finished_at = t
+                        return out
+                    self.status.append(dat_r)
+                self.pc += 1
+                if self.pc >= len(cmds):
+                    self.state = "done"
+                    self.finished_at = t
+                    return out
+                self.wait = cmds[self.pc][2]
+                self.state = "issue"
+            if self.state == "issue":
+                if self.wait:
+                    self.wait -= 1
+                    return out
+                if self.pc < 0:
+                    out += self._present(1, load)
+                else:
+                    c = cmds[self.pc]
+                    word = code[c[0]]
+                    if c[0] == "write":
+                        word |= c[1]
+                    if c[0] == "read" and c[3]:
+                        word |= I2C_ACK
+                    out += self._present(0, word)
+                    self.issued.append((self.pc, t))
+                    if not dat_r & I2C_IDLE:
+                        self.overlapped += 1
+                self.state = "ack"
+            return out
+
+    ag = Agent()
+    limit = 40 + sum(c[2] + 8 for c in cmds) + (len(cmds) + 1) * (step_bound + 8)
+    cyc = bench.run(top, [ag], limit, stop=lambda t: ag.finished_at is not None and t > ag.finished_at + 4,
+                    special_overrides={Tristate: periph.MockTristate})
+    tr = ag.trace
+    scl = [r[0] for r in tr]
+    sda = [r[1] for r in tr]
+    what = "I2CMaster(clock load %d), commands %r" % (load, [(c[0], c[1]) if c[0] in ("write", "read") else c[0] for c in cmds])
+    cls = ["i2c:" + mode, "i2c:load=%d" % load]
+    toks, viol = i2c_parse(scl, sda)
+    if ag.overlapped:
+        cls.append("i2c:command-written-while-busy")
+    busykey = "c19:i2c:command-while-busy" if ag.overlapped else None
+    if viol:
+        return bad("i2c-bus-legal", "%s: cycle %d: %s (scl %r sda %r)" % (what, viol[0][0], viol[0][1], scl[viol[0][0] - 2:viol[0][0] + 2],
+                                                                     sda[viol[0][0] - 2:viol[0][0] + 2]),
+                   key=busykey or "c19:i2c:scl-sda-same-cycle", cls=cls, cycles=cyc)
+    if ag.stuck is not None or ag.finished_at is None:
+        return bad("i2c-stuck", "%s: idle not reported within %d cycles after command %r" % (what, step_bound, ag.stuck), key="c19:i2c:stuck",
+                   cls=cls, cycles=cyc)
+    # START / STOP conditions only on command
+    cmd_cycles = {"start": [c for c, r in enumerate(tr) if r[4]], "stop": [c for c, r in enumerate(tr) if r[5]]}
+    ev_cycles = {"S": [], "P": []}
+    for c in range(1, len(scl)):
+        if scl[c] and scl[c - 1] and sda[c] != sda[c - 1]:
+            ev_cycles["P" if sda[c] else "S"].append(c)
+    for name, evn in (("start", "S"), ("stop", "P")):
+        for i, ec in enumerate(ev_cycles[evn]):
+            if sum(1 for cc in cmd_cycles[name] if cc < ec) < i + 1:
+                return bad("i2c-spurious-condition", "%s: %s condition on the bus in cycle %d without a %s command (commands at %r)" % (
+                    what, name.upper(), ec, name, cmd_cycles[name]), key=busykey or "c19:i2c:spurious-" + name, cls=cls, cycles=cyc)
+    if mode != "seq":
+        return ok(nt=len(cmds) >= 4, cls=cls, cycles=cyc)
+    # ---- protocol-shaped sequences: exact token stream, pulse widths, read-back values
+    if toks != exp_toks:
+        return bad("i2c-frame", "%s: bus carried %r, expected %r" % (what, toks, exp_toks), key="c19:i2c:frame", cls=cls, cycles=cyc)
+    edges = [c for c in range(1, len(scl)) if scl[c] != scl[c - 1]]
+    for a, b in zip(edges, edges[1:]):
+        if b - a < load + 1:
+            return bad("i2c-clock", "%s: SCL %s for only %d cycles (cycle %d..%d), clock load %d means >= %d" % (
+                what, "high" if scl[a] else "low", b - a, a, b, load, load + 1), key="c19:i2c:clock", cls=cls, cycles=cyc)
+    # status words: status[0] after the configuration write, status[i+1] after command i
+    for i, c in enumerate(cmds):
+        s = ag.status[i + 1]
+        if c[0] == "read" and (s & 0xff) != c[1]:
+            return bad("i2c-read-data", "%s: command %d read %#04x, the slave sent %#04x" % (what, i, s & 0xff, c[1]), key="c19:i2c:read-data",
+                       cls=cls, cycles=cyc)
+        if c[0] == "write" and bool(s & I2C_ACK) != bool(c[3]):
+            return bad("i2c-ack", "%s: command %d: ack flag %d, the slave %s" % (what, i, bool(s & I2C_ACK), "acked" if c[3] else "did not ack"),
+                       key="c19:i2c:ack", cls=cls, cycles=cyc)
+    if not (scl[-1] and sda[-1]):
+        return bad("i2c-bus-free", "%s: bus not released after STOP (scl=%d sda=%d)" % (what, scl[-1], sda[-1]), key="c19:i2c:frame", cls=cls, cycles=cyc)
+    nbytes = sum(1 for c in cmds if c[0] in ("read", "write"))
+    if any(c[0] == "read" for c in cmds):
+        cls.append("i2c:read")
+    if sum(1 for c in cmds if c[0] == "start") > sum(1 for c in cmds if c[0] == "stop"):
+        cls.append("i2c:repeated-start")
+    if any(c[2] == 0 for c in cmds):
+        cls.append("i2c:command-right-after-idle")
+    return ok(nt=nbytes >= 2, cls=cls, cycles=cyc)
+
+
 # ===================================================================================== registry
 
 def subchecks():
@@ -418,4 +1333,35 @@ def subchecks():
         Sub("uart-rx", run_uart_rx, strategy=st_uart_rx, examples=(320, 6000),
             rule="RS232PHYRX: fractional-time line driver, eps within the measured envelope, start phase n/16 cycle, gaps 0..3 bit, "
                  "framing errors and breaks must not deliver and must not disturb later frames; nt = |eps| >= 1.5 % or gap 0"),
+        Sub("waittimer", run_waittimer, strategy=st_waittimer, examples=(160, 3000),
+            rule="WaitTimer(t): done <=> wait was high during the last t cycles; generated wait schedules, final hold; nt = a count "
+                 "interrupted before completion and a completed one"),
+        Sub("timeline", run_timeline, strategy=st_timeline, examples=(120, 2000),
+            rule="timeline(trigger, events): each accepted trigger fires every event once at its offset, triggers while busy are "
+                 "ignored, the sequencer stops; nt = >= 2 accepted triggers and one ignored"),
+        Sub("pwm", run_pwm, strategy=st_pwm, examples=(160, 3000),
+            rule="PWM behind its CSRs: settings rewritten at run time; in every settled interval the output has the programmed period "
+                 "and min(width, period) high cycles per period, is low when disabled; nt = >= 2 settings, one with 0 < width < period"),
+        Sub("watchdog", run_watchdog, strategy=st_watchdog, examples=(240, 5000),
+            rule="Watchdog behind its CSRs (+ halted input): cycles/feed/enable/reset/pause histories; remaining count (feed, one step "
+                 "per enabled cycle, saturation at 0, pause), time-out event, pending/irq, crg_rst after reset_delay; nt = fed while "
+                 "counting and saturated at zero"),
+        Sub("watchdog-delay0", run_watchdog, strategy=lambda tier: st_watchdog(tier, probe="delay0"), examples=(32, 400),
+            rule="as watchdog with reset_delay=0 (the constructor default), kept apart because of finding c19:watchdog:reset-delay-0"),
+        Sub("i2c", run_i2c, strategy=st_i2c, examples=(240, 5000),
+            rule="I2CMaster at its pads (mock open-drain tristates, scripted Migen slave): protocol-shaped transactions issued like "
+                 "software (status polled, 0.. cycles latency) must put exactly START / bytes MSB first + ack / repeated START / STOP "
+                 "on the bus with SCL phases >= load+1, report read data and acks; arbitrary command sequences at arbitrary times "
+                 "(also while busy) must keep SDA stable while SCL changes, emit START/STOP only on command and return to idle; "
+                 "nt = transaction with >= 2 bytes (seq) / >= 4 commands (any)"),
+        Sub("i2c-busy", run_i2c, strategy=lambda tier: st_i2c(tier, busy=True), examples=(48, 800),
+            rule="as i2c/any, but commands are written at arbitrary times, also while the previous one is running (kept apart because "
+                 "of finding c19:i2c:command-while-busy)"),
+        Sub("spim-divider", run_spim, strategy=lambda tier: st_spim(tier, shrink_div=True), examples=(48, 800),
+            rule="as spim, but the divider register is also lowered between transfers (kept apart because of finding "
+                 "c19:spim:divider-shrink-stall, so that the search in 'spim' continues)"),
+        Sub("spim", run_spim, strategy=st_spim, examples=(400, 8000),
+            rule="SPIMaster behind its CSRs with an ideal mode-0 slave (Migen) on the pads: data_width 8..32, raw/aligned, 1..3 cs "
+                 "lines, divider 2..64 raised at run time, loopback, start offsets swept over the divider phase, second start / "
+                 "mosi rewrite during a transfer, next start 0..5 cycles after done; nt = >= 2 transfers, one started mid-phase"),
     ]
